@@ -494,8 +494,61 @@ func installLayout(f *sfnt.Font, layout string, r *v.Rand) {
 		return
 	}
 	gid := func() glyph.ID { return glyph.ID(r.Range(1, n-1)) }
+	dflt := language.MustParse("und-Zzzz-x-dflt")
+	oneSub := func() *gtab.LookupTable {
+		return &gtab.LookupTable{Meta: &gtab.LookupMetaInfo{LookupType: 1}, Subtables: []gtab.Subtable{&gtab.Gsub1_1{Cov: coverage.Set{gid(): true}, Delta: glyph.ID(r.Range(1, 3))}}}
+	}
+	onePos := func() *gtab.LookupTable {
+		return &gtab.LookupTable{Meta: &gtab.LookupMetaInfo{LookupType: 1}, Subtables: []gtab.Subtable{&gtab.Gpos1_1{Cov: coverage.Table{gid(): 0}, Adjust: &gtab.GposValueRecord{XAdvance: funit.Int16(r.Range(-50, 50))}}}}
+	}
 	for _, c := range layout {
 		switch c {
+		// ---- degenerate but representable layout tables: present, and (partly)
+		// empty.  The three lists are non-nil wherever another list is not empty
+		// (a nil list next to a non-empty one is the recorded finding
+		// info-nil-list-lost of the GSUB/GPOS codec, property C08).
+		case 'S': // GSUB: three empty lists
+			f.Gsub = &gtab.Info{ScriptList: gtab.ScriptListInfo{}, FeatureList: gtab.FeatureListInfo{}, LookupList: gtab.LookupList{}}
+		case 'N': // GSUB: what gtab.Read returns for a header-only table
+			f.Gsub = &gtab.Info{ScriptList: gtab.ScriptListInfo{}}
+		case 'Z': // GSUB: the zero Info
+			f.Gsub = &gtab.Info{}
+		case 'T': // GSUB: script and feature lists, no lookups
+			f.Gsub = &gtab.Info{
+				ScriptList:  gtab.ScriptListInfo{dflt: {Required: 0xFFFF, Optional: []gtab.FeatureIndex{0}}},
+				FeatureList: gtab.FeatureListInfo{{Tag: "liga", Lookups: []gtab.LookupIndex{}}},
+				LookupList:  gtab.LookupList{},
+			}
+		case 'F': // GSUB: features that refer to no lookup, next to a lookup
+			f.Gsub = &gtab.Info{
+				ScriptList:  gtab.ScriptListInfo{dflt: {Required: 0, Optional: []gtab.FeatureIndex{1}}},
+				FeatureList: gtab.FeatureListInfo{{Tag: "ccmp", Lookups: []gtab.LookupIndex{}}, {Tag: "liga", Lookups: []gtab.LookupIndex{}}},
+				LookupList:  gtab.LookupList{oneSub()},
+			}
+		case 'L': // GSUB: lookups, no features, no scripts
+			f.Gsub = &gtab.Info{ScriptList: gtab.ScriptListInfo{}, FeatureList: gtab.FeatureListInfo{}, LookupList: gtab.LookupList{oneSub(), oneSub()}}
+		case 'P': // GPOS: three empty lists
+			f.Gpos = &gtab.Info{ScriptList: gtab.ScriptListInfo{}, FeatureList: gtab.FeatureListInfo{}, LookupList: gtab.LookupList{}}
+		case 'M': // GPOS: what gtab.Read returns for a header-only table
+			f.Gpos = &gtab.Info{ScriptList: gtab.ScriptListInfo{}}
+		case 'Q': // GPOS: only a script list and a 'size' feature
+			f.Gpos = &gtab.Info{
+				ScriptList:  gtab.ScriptListInfo{dflt: {Required: 0xFFFF, Optional: []gtab.FeatureIndex{0}}},
+				FeatureList: gtab.FeatureListInfo{{Tag: "size", Lookups: []gtab.LookupIndex{}}},
+				LookupList:  gtab.LookupList{},
+			}
+		case 'R': // GPOS: lookups, no features
+			f.Gpos = &gtab.Info{ScriptList: gtab.ScriptListInfo{}, FeatureList: gtab.FeatureListInfo{}, LookupList: gtab.LookupList{onePos()}}
+		case 'K': // GPOS: a feature that refers to no lookup, next to a lookup
+			f.Gpos = &gtab.Info{
+				ScriptList:  gtab.ScriptListInfo{dflt: {Required: 0xFFFF, Optional: []gtab.FeatureIndex{0}}},
+				FeatureList: gtab.FeatureListInfo{{Tag: "kern", Lookups: []gtab.LookupIndex{}}},
+				LookupList:  gtab.LookupList{onePos()},
+			}
+		case 'D': // GDEF: nothing in it
+			f.Gdef = &gdef.Table{}
+		case 'E': // GDEF: empty class tables and no mark glyph sets
+			f.Gdef = &gdef.Table{GlyphClass: classdef.Table{}, MarkAttachClass: classdef.Table{}, MarkGlyphSets: []coverage.Set{}}
 		case 's':
 			a, b := gid(), gid()
 			cov := coverage.Table{a: 0}
